@@ -547,12 +547,12 @@ fn pipe_strategy() -> impl Strategy<Value = PipeCase> {
         .prop_map(|(cs, container, first)| PipeCase { cs, container, first })
 }
 
-fn run_with_paced_stdin(ctx: &Ctx, bytes: &[u8], first: usize, dir: &std::path::Path) -> Result<crate::cli::Run, Failure> {
+fn run_with_paced_stdin(ctx: &Ctx, args: &[&str], bytes: &[u8], first: usize, dir: &std::path::Path) -> Result<crate::cli::Run, Failure> {
     use std::os::fd::AsRawFd;
     use std::process::{Command, Stdio};
     ctx.subprocess_runs.fetch_add(1, Ordering::Relaxed);
     let mut child = Command::new(&ctx.sfs_bin)
-        .args(["create"])
+        .args(args)
         .current_dir(dir)
         .env("SFS_ALLOW_STDIN", "1")
         .env("RUST_BACKTRACE", "0")
@@ -604,7 +604,7 @@ fn eval_pipe(ctx: &Ctx, case: &PipeCase) -> Verdict {
     let path = dir.join(format!("c18.{}", case.container.ext()));
     std::fs::write(&path, &bytes).expect("write");
     let reference = crate::cli::sfs(ctx, &["create", path.file_name().unwrap().to_str().unwrap()], crate::cli::Input::Null, &dir);
-    let paced = run_with_paced_stdin(ctx, &bytes, case.first, &dir)?;
+    let paced = run_with_paced_stdin(ctx, &["create"], &bytes, case.first, &dir)?;
     ensure!(
         paced.code == reference.code && paced.stdout == reference.stdout,
         "{} on a real pipe whose first chunk is {} bytes (detection window {window}): {} -- by path: {}",
@@ -649,6 +649,66 @@ fn eval_dev_full(ctx: &Ctx, case: &DevFullCase) -> Verdict {
     Ok(Pass::new().nontrivial(true).label(case.argv[0].clone()))
 }
 
+#[derive(Clone, Debug, Serialize, Deserialize)]
+pub struct SpectrumPipeCase {
+    pub file: NpyCase,
+    pub text: bool,
+    pub first: usize,
+    pub command: u8,
+}
+
+fn spectrum_pipe_strategy() -> impl Strategy<Value = SpectrumPipeCase> {
+    (
+        prop_oneof![
+            2 => Just(Source::Sfs),
+            3 => (any::<u16>(), any::<bool>(), 1u8..=3).prop_map(|(d, big, version)| Source::Numpy { dtype: crate::model::npy::ALL_DTYPES[pick_idx(d, 10)], big, version }),
+        ],
+        shape_strategy(1, 4, 1, 6, 400),
+        any::<u64>(),
+        any::<bool>(),
+        prop_oneof![Just(1usize), Just(2), Just(5), Just(6), Just(7), 8usize..200],
+        0u8..4,
+    )
+        .prop_map(|(source, shape, seed, text, first, command)| SpectrumPipeCase {
+            file: NpyCase { source, shape, seed },
+            text,
+            first,
+            command,
+        })
+}
+
+fn eval_spectrum_pipe(ctx: &Ctx, case: &SpectrumPipeCase) -> Verdict {
+    let dir = ctx.worker_dir(crate::engine::worker_id());
+    let bytes = if case.text {
+        let n = elements(&case.file.shape);
+        let spec = crate::model::spec::Spec::new(case.file.shape.clone(), (0..n as u64).map(|i| (crate::engine::splitmix64(case.file.seed ^ i) % 5000) as f64 / 8.0).collect());
+        crate::props::common::text_bytes_exact(&spec)
+    } else {
+        npy_file(&case.file)?.0
+    };
+    std::fs::write(dir.join("c18s.bin"), &bytes).expect("write");
+    let args: Vec<&str> = match case.command {
+        0 => vec!["view", "--precision", "9"],
+        1 => vec!["view", "-O", "npy"],
+        2 => vec!["fold", "--precision", "9"],
+        _ => vec!["stat", "-s", "sum,s", "--precision", "9"],
+    };
+    let mut by_path: Vec<&str> = args.clone();
+    by_path.push("c18s.bin");
+    let reference = crate::cli::sfs(ctx, &by_path, crate::cli::Input::Null, &dir);
+    let paced = run_with_paced_stdin(ctx, &args, &bytes, case.first, &dir)?;
+    ensure!(
+        paced.code == reference.code && paced.stdout == reference.stdout,
+        "`sfs {}` reading a {} spectrum from a real pipe whose first chunk is {} bytes: {} -- by path: {}",
+        args.join(" "),
+        if case.text { "text" } else { "npy" },
+        case.first,
+        paced.describe(),
+        reference.describe()
+    );
+    Ok(Pass::new().nontrivial(case.first < 6).label(if case.text { "text" } else { "npy" }).label(args[0].to_string()))
+}
+
 pub fn check(ctx: &Ctx) -> Check {
     let parts: Vec<Box<dyn Part>> = vec![
         Box::new(RandomPart {
@@ -678,6 +738,13 @@ pub fn check(ctx: &Ctx) -> Check {
             cases: ctx.tier.pick(40, 300),
             strategy: Box::new(|| pipe_strategy().boxed()),
             eval: Box::new(eval_pipe),
+        }),
+        Box::new(RandomPart {
+            name: "real-pipes-spectra",
+            rule: "text and npy spectra (all dtypes/versions) written into the stdin of view / view -O npy / fold / stat through a real pipe with a first chunk of 1..200 bytes (shorter than the 6 magic bytes included), the rest after the pipe drained: stdout and exit status equal the run by path; non-trivial = first chunk shorter than the magic",
+            cases: ctx.tier.pick(60, 600),
+            strategy: Box::new(|| spectrum_pipe_strategy().boxed()),
+            eval: Box::new(eval_spectrum_pipe),
         }),
         Box::new(crate::engine::EnumPart {
             name: "stdout-enospc",
